@@ -91,6 +91,40 @@ def harness_sources(kind):
         return common + props + [os.path.join(SRC, 'fuzz', kind + '.cpp')], []
     raise ValueError(kind)
 
+# ---- several ./check processes may share the cache (other properties, other VERIF_REPO trees): a directory is never evicted while a
+# live process has marked it as in use
+_marked = set()
+def _mark_in_use(d):
+    import atexit
+    f = os.path.join(d, '.inuse-%d' % os.getpid())
+    if f in _marked:
+        return
+    try:
+        open(f, 'w').close()
+    except OSError:
+        return
+    if not _marked:
+        atexit.register(lambda: [os.path.exists(x) and os.remove(x) for x in list(_marked)])
+    _marked.add(f)
+
+def _in_use(d):
+    for f in glob.glob(os.path.join(d, '.inuse-*')):
+        try:
+            pid = int(f.rsplit('-', 1)[1])
+        except ValueError:
+            continue
+        if pid == os.getpid():
+            return True
+        try:
+            os.kill(pid, 0)
+            return True
+        except ProcessLookupError:
+            try: os.remove(f)
+            except OSError: pass
+        except PermissionError:
+            return True
+    return False
+
 def build(flavour, kinds=('pbt', 'replay'), quiet=False):
     """Returns dict kind -> binary path. Raises RuntimeError on failure."""
     fl = FLAVOURS[flavour]
@@ -124,13 +158,15 @@ def build(flavour, kinds=('pbt', 'replay'), quiet=False):
         if not os.path.exists(binp):
             # remove older binaries of the same flavour/kind
             for old in glob.glob(os.path.join(CACHE, 'bin', '%s-%s-*' % (flavour, k))):
-                shutil.rmtree(old, ignore_errors=True)
+                if not _in_use(old):
+                    shutil.rmtree(old, ignore_errors=True)
             os.makedirs(bdir, exist_ok=True)
             cmd = [fl['cxx']] + olist + fl['link'] + libs + ['-o', binp + '.tmp']
             r = sh(cmd)
             if r.returncode != 0:
                 raise RuntimeError('link failed: %s\n%s' % (' '.join(cmd[:3]) + ' ...', r.stdout[-6000:]))
             os.replace(binp + '.tmp', binp)
+        _mark_in_use(bdir)
         out[k] = binp
     purge_cache()
     if not quiet:
@@ -147,8 +183,10 @@ def build_cmake_traces():
     h = repo_hash()[:16]
     root = os.path.join(CACHE, 'cmake', h)
     for old in glob.glob(os.path.join(CACHE, 'cmake', '*')):
-        if old != root:
+        if old != root and not _in_use(old):
             shutil.rmtree(old, ignore_errors=True)
+    os.makedirs(root, exist_ok=True)
+    _mark_in_use(root)
     hdrh = headers_hash()
     out = {}
     def one(cfg):
